@@ -51,17 +51,18 @@ Theorem trunc_prefix : forall m origin max_size request_payload pad w,
 Proof. exact trunc_prefix_lemma. Qed.
 Print Assumptions trunc_prefix.
 
-(* ... and it parses back to exactly that prefix message: same id, flags with TC as stated, EDNS state,
-   TSIG record, and per section the kept record sets (well-formed ordinary message, with or without
-   origin; _partial: no padding, and the dynamic-update forms are outside C03's render_parse) *)
-Theorem trunc_parses_partial : forall o m max_size request_payload w,
-  org_ok o -> WfMsg o m -> wf_tsig m -> to_wire m o max_size request_payload true 0 = Ok w ->
+(* ... and it parses back to exactly that prefix message: same id, flags with TC as stated, TSIG record,
+   per section the kept record sets, and the OPT record (with the padding option appended when a block
+   size is given) - for every padding block size, with or without origin.  _partial: for well-formed
+   ordinary messages of the RDATA types modelled in C03 (WfMsg); dynamic updates are not covered *)
+Theorem trunc_parses_partial : forall o pad m max_size request_payload w,
+  org_ok o -> WfMsg o m -> wf_tsig m -> to_wire m o max_size request_payload true pad = Ok w ->
   exists q1 q2 a1 a2 u1 u2 d1 d2 m',
     mq m = q1 ++ q2 /\ man m = a1 ++ a2 /\ mau m = u1 ++ u2 /\ mad m = d1 ++ d2 /\
     (q2 <> [] -> a1 = [] /\ u1 = [] /\ d1 = []) /\ (a2 <> [] -> u1 = [] /\ d1 = []) /\ (u2 <> [] -> d1 = []) /\
     from_wire w o po0 = Ok m' /\
-    msg_equiv_t m' (cut_msg m (if cut_before q2 a2 u2 then Z.lor (mflags m) fTC else mflags m) q1 a1 u1 d1).
-Proof. exact trunc_parses_lemma. Qed.
+    msg_equiv_p pad m' (cut_msg m (if cut_before q2 a2 u2 then Z.lor (mflags m) fTC else mflags m) q1 a1 u1 d1).
+Proof. exact trunc_parses_pad_lemma. Qed.
 Print Assumptions trunc_parses_partial.
 
 (* when padding is requested (and the message has an OPT record to carry it) the final length,
